@@ -210,15 +210,19 @@ SchemaConflict(src, dst, o) == LET a == SchemaOf(DOMAIN src.jobs, o.sps)  b == S
 Selected(src, o) == IF ProjLevel(o) THEN {j \in DOMAIN src.jobs : ~o.selection.on \/ j \in o.selection.ids}
                     ELSE {o.jid} \cap DOMAIN src.jobs
 PutJob(P, j, st) == IF st.present THEN [P EXCEPT !.jobs = Over((j :> st.job), P.jobs)] ELSE P
-RECURSIVE ProjFold(_, _, _, _)
+\* the per-job steps in listing order, stopping at the first one that raises.  Jobs are independent of each other (a step reads and
+\* writes only its own job), so the fold is written without recursion: with hundreds of jobs a chain of nested function
+\* overrides would exhaust TLC's stack.
 ProjFold(seq, src, acc, o) ==
-  IF seq = <<>> THEN acc
-  ELSE LET j == Head(seq)
-           st == ProjStep(src.jobs[j], acc.dst, j, o)
-           a2 == [dst |-> PutJob(acc.dst, j, st), res |-> st.res, fn |-> st.fn, keys |-> st.keys,
-                  cons |-> acc.cons \cup {<<j>> \o p : p \in st.cons}]
-       IN IF st.res # "ok" THEN a2 ELSE ProjFold(Tail(seq), src, a2, o)
-
+  LET st(j) == ProjStep(src.jobs[j], acc.dst, j, o)
+      bad == {i \in 1..Len(seq) : st(seq[i]).res # "ok"}
+      last == IF bad = {} THEN Len(seq) ELSE Min(bad)                       \* index of the last step taken
+      done == {seq[i] : i \in 1..last}
+      put == {j \in done : st(j).present}
+  IN IF seq = <<>> THEN acc
+     ELSE [dst |-> [acc.dst EXCEPT !.jobs = [j \in (DOMAIN acc.dst.jobs) \cup put |-> IF j \in put THEN st(j).job ELSE acc.dst.jobs[j]]],
+           res |-> st(seq[last]).res, fn |-> st(seq[last]).fn, keys |-> st(seq[last]).keys,
+           cons |-> acc.cons \cup UNION {{<<j>> \o p : p \in st(j).cons} : j \in done}]
 \* the synchronisation: post-state of the destination and the result; jobs in listing order o.order (sequential)
 SyncFn(src, dst, o) ==
   LET base == [dst |-> dst, res |-> "ok", fn |-> "", keys |-> {}, cons |-> {}] IN
